@@ -437,6 +437,33 @@ def run_root_end():
     RUN_ROOT['dir'] = None
 
 
+class _FakeLease:
+    def heartbeat(self):
+        pass
+
+    def remove(self):
+        pass
+
+
+class _FakeWatchdogs:
+    def create(self, name, timeout=None, content=''):
+        return _FakeLease()
+
+
+class _UtilsProxy:
+    """`utils` as seen by treadmill.eventmgr during start-up: an unhandled
+    exception in a watch callback propagates to the harness instead of
+    os._exit()ing the worker."""
+
+    def __getattr__(self, name):
+        from treadmill import utils as real
+        return getattr(real, name)
+
+    @staticmethod
+    def exit_on_unhandled(func):
+        return func
+
+
 class World:
     """One node: temp root, EventMgr, fake ZK."""
 
@@ -622,6 +649,46 @@ class World:
         self.mgr._cache_notify(True)
         return 'ok', None
 
+    def startup(self, when=T_SYNC):
+        """The real start-up path: EventMgr.run(once=True) with the fake zk
+        client as context.GLOBAL.zk.conn.  fakezk's DataWatch / ChildrenWatch
+        call back immediately with the current state, as kazoo's do, so the
+        first _synchronize is issued by the real _app_watch with the flag the
+        real code computes.  Stubbed: the watchdog lease, time.sleep of the
+        heartbeat loop, utils.exit_on_unhandled (re-raises instead of
+        os._exit).  -> list of check_existing flags of the _synchronize calls
+        """
+        self.mgr = self.new_mgr()
+        self.mgr.tm_env.watchdogs = _FakeWatchdogs()
+        self.now = when
+        self.zk_ms = int(when * 1000)
+        self.snapshot = None
+        st = self.steps
+        st.reset(None)
+        calls = []
+        real_sync = eventmgr.EventMgr._synchronize
+
+        def spy(mgr, zkclient, expected, check_existing=False):
+            calls.append(bool(check_existing))
+            return real_sync(mgr, zkclient, expected,
+                             check_existing=check_existing)
+
+        saved = (eventmgr.context, eventmgr.time, eventmgr.utils)
+        ns = types.SimpleNamespace
+        eventmgr.context = ns(GLOBAL=ns(zk=ns(conn=self.zk)))
+        eventmgr.time = ns(sleep=lambda _secs: None, time=lambda: self.now)
+        eventmgr.utils = _UtilsProxy()
+        eventmgr.EventMgr._synchronize = spy
+        st.armed = True
+        try:
+            self.mgr.run(once=True)
+        finally:
+            st.armed = False
+            eventmgr.EventMgr._synchronize = real_sync
+            eventmgr.context, eventmgr.time, eventmgr.utils = saved
+            st.close_all()
+        return calls
+
 
 # -- oracle ---------------------------------------------------------------------
 _PARSED = {}
@@ -759,8 +826,53 @@ def _exc_site(exc):
     return 'harness'
 
 
+def run_startup_case(world, case):
+    """Start-up slice: the listed instances are exactly those with a
+    placement node (the ChildrenWatch delivers the real children); the first
+    synchronisation after start is issued by the real EventMgr.run."""
+    out = []
+    stats = world.stats
+    for cfg in case['slots']:
+        if bool(cfg[1]) != bool(cfg[3]):
+            raise HarnessError('start-up case lists %r' % (cfg,))
+    prior_files = world.setup(case)
+    world.zk_ms = int((T_PLACE - 9000) * 1000)
+    zkutils.put(world.zk, z.path.server_presence(HOST), {}, ephemeral=True)
+    allowed = allowed_docs(case, prior_files)
+    try:
+        calls = world.startup()
+    except Exception as exc:  # pylint: disable=broad-except
+        site = _exc_site(exc)
+        if site == 'harness' or isinstance(exc, HarnessError):
+            raise
+        out.append(_v('startup-raised', site,
+                      {'error': '%s: %s' % (type(exc).__name__,
+                                            str(exc)[:160])}))
+        return out, {'steps': world.steps.n, 'outcome': 'raised'}
+    stats['startups'] += 1
+    stats['startup_syncs'] += len(calls)
+    stats['startup_syncs_check_existing'] += sum(calls)
+    if not calls:
+        raise HarnessError('start-up issued no synchronisation')
+    info = {'steps': world.steps.n, 'trace': list(world.steps.trace),
+            'outcome': 'ok', 'written': sorted(world.steps.written),
+            'sync_flags': calls}
+    files = world.read_dir()
+    where = 'after start-up (first sync issued by EventMgr.run, ' \
+            'check_existing=%s)' % calls[0]
+    check_synced(case, files, world.steps.written, where, out, stats)
+    check_visible(files, allowed, where, 'fs.write_safe', out, stats,
+                  world.intended)
+    if '.ready' not in files:
+        out.append(_v('ready-marker-missing',
+                      'eventmgr.EventMgr._cache_notify', {'where': where}))
+    return out, info
+
+
 def run_case(world, case, fault=None):
     """-> (violations, info).  `fault` = None | [flavour, k, torn]."""
+    if case.get('startup'):
+        return run_startup_case(world, case)
     out = []
     stats = world.stats
     prior_files = world.setup(case)
